@@ -150,8 +150,13 @@ def observe_scenario(st, creates):
     mode = sc["mode"]
     d = sc["de"]
     if mode == "arb":
-        token = bytes(st["arb"])
-        spec_tok = list(st["arb"])
+        if sc["tam"]["op"] == "long":
+            spec_tok = [49] * sc["tam"]["i"] + ([124] if sc["tam"]["b"] == 1 else [124, 97, 124, 98])
+            if len(spec_tok) != exp["len"] or checksum(spec_tok) != exp["sum"]:
+                raise RuntimeError("harness long-input mirror disagrees with the specification")
+        else:
+            spec_tok = list(st["arb"])
+        token = bytes(spec_tok)
         ver = 0
         op = "arb"
     else:
@@ -193,7 +198,7 @@ def observe_scenario(st, creates):
             base["design"] = (res[0] == "lenient" or res == obs)
         if what:
             base["what"] = what
-            return {"step": 1, "act": "decode", "args": {"de": d, "token": list(token), "as_str": as_str, "spec_token": spec_tok},
+            return {"step": 1, "act": "decode", "args": {"de": d, "token": list(token[:300]), "token_len": len(token), "as_str": as_str},
                     "exp": {"format": res, "property": want}, "obs": obs, "sig": base}
     return None
 
